@@ -131,6 +131,15 @@ theorem C01_bitmap_head_inert_partial (T : Tables) (hT : QuietTables T) (fuel : 
   decodeDataB_quiet_uncompressed T fuel t enforce nsub s4max data from0 to0 (qclosed_of_quietTables T hT)
     (fun bsq0 h => expandSequence_quiet T hT fuel _ t.gabarit bsq0 ht h)
 
+/-- the dataset-building side: `bufr_create_datasubset` / `bufr_expand_datasubset` with the bit-map
+head (what the correspondence runs) are the functions the theorems are about, under the same
+condition -/
+theorem C01_bitmap_head_inert_build (T : Tables) (hT : QuietTables T) (fuel : Nat) (t : Template)
+    (ht : ∀ n ∈ t.gabarit, quietNode n = true) :
+    createDatasubsetB T fuel t = createDatasubset T fuel t ∧
+    (∀ s : Subset, (∀ n ∈ s.nodes, quietNode n = true) → expandDatasubsetB T fuel t s = expandDatasubset T fuel t s) :=
+  ⟨createDatasubsetB_quiet T hT fuel t ht, fun s hs => expandDatasubsetB_quiet T hT fuel t s hs⟩
+
 /-- the subset loop itself, for any template: while no bit-map operator is met the loop with the
 bit-map head *is* the plain loop -/
 theorem C01_subset_loop_head_inert (T : Tables) (edition s4max : Nat) (hT : QClosed T)
